@@ -323,7 +323,16 @@ class Program:
                 ln, col = int(m.group(2)) - 1, int(m.group(3)) - 1
                 line = lines[ln] if ln < len(lines) else ""
                 seg = " ".join(lines[ln:ln + 3])
-                mm = re.match(r"\s*(?:unsafe )?impl(?:<[^>]*>)?\s+(?:(\S+?)(?:<.*?>)?\s+for\s+)?&?([\w:]+)", seg[col:] if seg[col:].startswith(("impl", "unsafe")) else seg)
+                segx = seg[col:] if seg[col:].startswith(("impl", "unsafe")) else seg
+                # drop the (possibly nested) generic parameter list right after `impl`
+                mg = re.match(r"(\s*(?:unsafe )?impl)\s*<", segx)
+                if mg:
+                    try:
+                        k = mirparse.match_close(segx, mg.end() - 1)
+                        segx = mg.group(1) + segx[k + 1:]
+                    except Exception:
+                        pass
+                mm = re.match(r"\s*(?:unsafe )?impl(?:<[^>]*>)?\s+(?:(\S+?)(?:<.*?>)?\s+for\s+)?&?([\w:]+)", segx)
                 if mm and seg.lstrip().startswith(("impl", "unsafe impl")) or (mm and seg[col:].startswith("impl")):
                     res = (mm.group(1).split("::")[-1] if mm.group(1) else None, mm.group(2).split("::")[-1])
                 else:
@@ -984,6 +993,8 @@ class Engine:
             return Int(z3.BitVecVal(len(v.items), 64), "usize")
         if isinstance(v, Agg) and v.ty == "array":
             return Int(z3.BitVecVal(len(v.fields), 64), "usize")
+        if isinstance(v, ListV):
+            return Int(z3.BitVecVal(len(v.items), 64), "usize")
         if isinstance(v, Lazy):
             return Int(z3.BitVec(sanitize(v.name + "#len"), 64), "usize")
         raise Inconclusive("len of %r" % (v,))
